@@ -122,6 +122,8 @@ Definition res_code (r : trec) : N :=
   end.
 Definition is_cancelled (r : trec) : bool := match tr_final r with Some OCancel => true | _ => false end.
 
+Definition NO_INJECT : N := 2 ^ 40.
+
 Section Sim.
   Variable cfg : deviations.
   Variable tasks : list tdesc.
@@ -395,8 +397,9 @@ Section Sim.
       end
     end.
 
+  (* a @service that is started by some task's SCall step, never by the driver: marked by td_at = NO_INJECT *)
   Definition is_callee (x : tid) : bool :=
-    existsb (fun d => existsb (fun o => match o with SCall y => N.eqb y x | _ => false end) (td_steps d)) tasks.
+    match desc_of x with Some d => N.eqb (td_at d) NO_INJECT | None => false end.
   Fixpoint inject_timers (l : list tdesc) (i : N) : list (N * timer) :=
     match l with
     | [] => []
@@ -623,7 +626,10 @@ Section Spec.
     match my_events t with
     | [] => true
     | e0 :: _ =>
-        (match sp_kind t with KCreate => true | _ => match desc_of (lc_tasks c) t with Some d => N.eqb (e_time e0) (td_at d) | None => false end end)
+        (match sp_kind t with
+         | KCreate => true
+         | _ => is_callee (lc_tasks c) t || match desc_of (lc_tasks c) t with Some d => N.eqb (e_time e0) (td_at d) | None => false end
+         end)
         && forallb (fun e => match e_kind e with
                              | EM k => match sleeps_before (sp_steps t) (N.to_nat k) with
                                        | Some d => N.eqb (e_time e) (e_time e0 + d)
